@@ -644,6 +644,14 @@ def module_grid(tier):
         add("overhang", "2x2-%s" % d2, mesh=(2, 2, 0), direction=d2)
     add("overhang", "2x3-unit", mesh=(2, 3, 0), direction=[0.0, 1.0], unit_exponents=True)
     add("overhang", "3x1-onelayer", mesh=(3, 1, 0), direction=[0.0, 1.0])
+    # 3-D, two layers, NON-square cross-sections orthogonal to the print direction (support masks use both in-layer sizes)
+    add("overhang", "2x1x2-z-5", mesh=(2, 1, 2), direction=[0.0, 0.0, 1.0], nsampling=5)
+    add("overhang", "1x2x2-mz-9", mesh=(1, 2, 2), direction=[0.0, 0.0, -1.0], nsampling=9)
+    add("overhang", "2x2x1-x-5", mesh=(2, 2, 1), direction=[1.0, 0.0, 0.0], nsampling=5)
+    add("overhang", "1x2x3-y-9-unit", mesh=(1, 2, 3), direction=[0.0, 1.0, 0.0], nsampling=9, unit_exponents=True)
+    if not q:
+        add("overhang", "1x2x3-y-9", mesh=(1, 2, 3), direction=[0.0, 1.0, 0.0], nsampling=9)
+        add("overhang", "3x2x1-my-5", mesh=(3, 2, 1), direction=[0.0, -1.0, 0.0], nsampling=5)
     if not q:
         add("overhang", "3x2-vec", mesh=(3, 2, 0), direction=[0.0, 1.0])
         add("overhang", "3x3-unit", mesh=(3, 3, 0), direction=[1.0, 0.0], unit_exponents=True)
